@@ -1,13 +1,32 @@
 """Which units decide which property (DESIGN.md 7, appendix D.2)."""
-from . import api_ops, seam, walks, config, types_c17, pythonic, tables, wire_community
+from . import api_ops, seam, walks, config, types_c17, pythonic, tables, wire_community, wire_v3
 
 VC = ("contract-based deductive verification: verification conditions generated on every run from the real ASTs "
       "(symbolic execution of each function against its sidecar contract, callee contracts at the seams) and "
       "discharged by z3 (cvc5 for z3-unknowns); ")
 
 PROPS = {
+    "C10": {
+        "units": [wire_v3.units_emit, wire_v3.units_rx], "level": "other", "design_ref": "7.10",
+        "technique": VC + "V3MPM.encode and the USM request path compared with the RFC 3412/3414 term (flags, parameters, digest over "
+                     "the message as sent); key derivation verified against RFC 3414 A.2 for every password length; incoming "
+                     "authentic minimal-BER responses; x690 encode_length verified from its source",
+        "trusted_base": ["hashlib/hmac uninterpreted", "x690 serialisation/decode contract on the term algebra"],
+    },
+    "C11": {
+        "units": [wire_v3.units_emit, wire_v3.units_rx], "level": "other", "design_ref": "7.11",
+        "technique": VC + "apply_encryption / decrypt_message / localise_key executed with the privacy plug-in as two uninterpreted "
+                     "functions satisfying decrypt(encrypt(x)) = x",
+        "trusted_base": ["privacy plug-in contract (the property's axiom)", "x690 serialisation/decode contract"],
+    },
+    "C12": {
+        "units": [wire_v3.units_emit, wire_v3.units_c12], "level": "other", "design_ref": "7.12",
+        "technique": VC + "discovery exchange and request construction executed from the real code; timeliness as an obligation over "
+                     "a ghost agent clock (environment steps: clock advance by any amount, reboot)",
+        "trusted_base": ["RFC 3414 section 3.2 (7b) acceptance window as the agent model"],
+    },
     "C05": {
-        "units": [wire_community.units_c05], "level": "other", "design_ref": "7.5",
+        "units": [wire_community.units_c05, wire_v3.units_emit], "level": "other", "design_ref": "7.5",
         "technique": VC + "the real chain operation -> _send -> plug-in loaders -> message processing -> security model -> "
                      "PDU framing executed symbolically; the bytes handed to the sender are compared with an RFC-transcribed "
                      "term over a free BER term algebra",
@@ -91,7 +110,7 @@ PROPS = {
                          "x690 ObjectIdentifier order/containment contract (assumed, validated by enumeration)"],
     },
     "C07": {
-        "units": [api_ops.units, seam.units], "level": "other", "design_ref": "7.7",
+        "units": [api_ops.units, seam.units, wire_v3.units_emit], "level": "other", "design_ref": "7.7",
         "technique": VC + "every clock read is a fresh symbolic integer; the id placed in the PDU must equal the id "
                      "validated (caller-side obligation at the _send seam); _send itself verified against its contract",
         "trusted_base": ["mpm.encode / mpm.decode / sender are contract slots in the _send unit (any bytes, any response id)",
